@@ -121,6 +121,7 @@ def run(ctx):
                 r.fail(rule, 'browse_next:release', 'the release path is not selected by release_continuation_points or still browses', loc=rel[0].loc)
     r.floor('C30', 'obligations', len(r.obls), 4)
     expiry_examines_all(ctx)
+    modification_stamps(ctx)
 
 
 def expiry_examines_all(ctx, rule='expiry-examines-all'):
@@ -176,3 +177,88 @@ def expiry_examines_all(ctx, rule='expiry-examines-all'):
             r.ok(rule, 'is_valid', 'valid iff the point is not older than the last modification: %s' % t[:100], loc=v.loc)
         else:
             r.fail(rule, 'is_valid', 'is_valid_browse_continuation_point is not `point.address_space_last_modified >= address_space.last_modified()` (%s)' % t[:100], loc=v.loc)
+
+
+def modification_stamps(ctx, rule='modification-stamps'):
+    """"a continuation point is invalid after the address space changes", structural part: validity is decided by comparing
+    the point's timestamp with AddressSpace.last_modified (rule expiry-examines-all), so every method of AddressSpace that
+    changes the node map or the reference index must stamp: from each such mutation every path to the function's return passes
+    update_last_modified() (directly or through a method that always stamps).  Mutation through the &mut NodeType handed out
+    by find_node_mut (attribute writes) is not covered."""
+    r, db = ctx.r, ctx.db
+    AS = 'server::address_space::address_space::AddressSpace::'
+    MUT_REF = re.compile(r'^server::address_space::references::References::(insert|insert_reference|insert_references|delete_reference|delete_node_references)$')
+    MUT_MAP = re.compile(r'(HashMap|BTreeMap)::(insert|remove|clear|retain|drain)$')
+    bodies = [b for b in db.find_bodies('^' + re.escape(AS)) if not re.search(r'::tests?::', b.path)]
+    if not bodies:
+        r.lost(rule, 'AddressSpace', 'no AddressSpace methods found'); return
+    stamp = AS + 'update_last_modified'
+    if db.body(stamp) is None:
+        r.lost(rule, 'update_last_modified', 'AddressSpace::update_last_modified not found'); return
+    # the stamp itself: last_modified := now
+    sb = db.body(stamp); Fs = ctx.facts(sb)
+    w = [fmt_sym(sb, Fs.sym_call(c)) for c in sb.calls() if c.dest[0] == 1 and c.dest[1] and c.dest[1][-1] == '.last_modified']
+    w += [fmt_sym(sb, Fs.sym_rvalue(st[2], 0, bi)) for bi, blk in enumerate(sb.blocks) if not blk['c'] for st in blk['s']
+          if st[0] == '=' and st[1][0] == 1 and st[1][1] and st[1][1][-1] == '.last_modified']
+    if w and all(re.match(r'^Utc::now\(\)$|^DateTime::now\(\)$', x) for x in w):
+        r.ok(rule, 'stamp', 'update_last_modified sets last_modified to the current time', loc=sb.loc)
+    else:
+        r.fail(rule, 'stamp', 'update_last_modified does not set last_modified to the current time (%s)' % w, loc=sb.loc)
+    # who else writes last_modified
+    for b in db.find_bodies_mentioning(r'last_modified', 'last_modified') if hasattr(db, 'find_bodies_mentioning') else []:
+        if b.path == stamp or not b.path.startswith('server::address_space::address_space::') or re.search(r'::(new|default)$', b.path):
+            continue
+        for bi, blk in enumerate(b.blocks):
+            for st in blk['s']:
+                if st[0] == '=' and st[1][1] and st[1][1][-1] == '.last_modified':
+                    r.fail(rule, 'other-writer:' + b.path.rsplit('::', 1)[-1], 'last_modified is also assigned in %s' % b.path, loc=b.loc)
+    # functions that stamp on every path (fixpoint)
+    always = {stamp}
+    changed = True
+    while changed:
+        changed = False
+        for b in bodies:
+            if b.path in always or '{closure' in b.path:
+                continue
+            stops = {c.bb for c in b.calls() if c.callee in always}
+            if not stops:
+                continue
+            reach = b.reachable_blocks(0, stop=stops)
+            if not any(rb in reach and rb not in stops for rb in b.return_blocks()):
+                always.add(b.path); changed = True
+    n = 0
+    for b in bodies:
+        F = None
+        for c in b.calls():
+            kind = None
+            if MUT_REF.search(c.callee):
+                kind = c.callee.rsplit('::', 1)[-1]
+            elif MUT_MAP.search(c.callee) and c.args:
+                F = F or ctx.facts(b)
+                t = fmt_sym(b, F.sym_operand(c.args[0]))
+                if re.search(r'[._]node_map(\(_[\d.]+\))?$', t):
+                    kind = 'node_map.' + c.callee.rsplit('::', 1)[-1]
+            if kind is None:
+                continue
+            n += 1
+            key = '%s:%s' % (re.sub(r'^' + re.escape(AS), '', b.path), kind)
+            if '{closure' in b.path:
+                r.lost(rule, key, 'the index is changed inside a closure: the stamp cannot be tied to it'); continue
+            stops = {x.bb for x in b.calls() if x.callee in always and x.bb != c.bb}
+            start = c.target
+            if start is None:
+                continue
+            seen = set(); work = [start]
+            while work:
+                x = work.pop()
+                if x in seen or x in stops or b.is_cleanup(x):
+                    continue
+                seen.add(x)
+                work.extend(b.succ(x))
+            if any(rb in seen for rb in b.return_blocks()):
+                r.fail(rule, key, '%s changes the address space (%s) and can return without update_last_modified(): continuation points issued before the change '
+                       'stay valid and BrowseNext serves a stale remainder' % (b.path.rsplit('::', 1)[-1], kind), loc=c.loc)
+            else:
+                r.ok(rule, key, 'every path from this change to the return stamps last_modified', loc=c.loc)
+    r.count('address_space_mutations', n)
+    r.floor(rule, 'address_space_mutations', n, 6)
